@@ -1,4 +1,6 @@
-(* Generator model, parameter flattening: src/model/method/mod.rs:200-351 and name::combined_ident (src/model/name.rs:68-81).
+(* Generator model, parameter flattening: src/model/method/mod.rs (clear_ref_mut, pat_vars_flat_into_ident, check_flat_ident,
+   flat_arguments, get_live_args_and_sig) and name::combined_ident (src/model/name.rs:68-81) - the REPAIRED code: two parameters
+   flattened to one identifier, or a flattened pattern producing inter_actor / inter_send / inter_recv, is a naming-conflict diagnostic.
    Definitions only (no proofs), so the model still runs when a proof breaks.
 
    Transliteration of syn::Pat at the granularity the macro inspects:
@@ -69,19 +71,34 @@ Definition clear_ref_mut (p : pat) : option pat :=
   | _ => Some p
   end.
 
+(* string membership *)
+Definition smem (x : string) (l : list string) : bool := existsb (String.eqb x) l.
+Definition is_ident (p : pat) : bool := match p with PIdent _ _ _ => true | _ => false end.
+(* names the generated code binds itself (ConstVars actor / inter_send / inter_recv): a FLATTENED pattern must not produce them
+   (check_flat_ident); a plain identifier parameter of that name is handled by the textual reserved-word checks *)
+Definition reserved_flat : list string := ["inter_actor"; "inter_send"; "inter_recv"].
+
 Section Args.
 Context {T : Type}.   (* parameter types are carried opaquely *)
 
-(* flat_arguments over the typed arguments (the receiver is handled elsewhere): one PatIdent per parameter;
-   `.unwrap()` on a top-level Pat::Rest panics *)
-Fixpoint flat_arguments (ps : list (pat * T)) : option (list (string * T)) :=
+(* outcome of the flattening: the handle parameters, an abort on an unsupported pattern, or the naming-conflict diagnostic *)
+Inductive ares := AOk (qs : list (string * T)) | AAbort | AConflict (x : string).
+
+(* flat_arguments with check_flat_ident: left to right, one PatIdent per parameter; the identifier must not repeat an earlier
+   one and a flattened one must not be reserved; `.unwrap()` on a top-level Pat::Rest panics *)
+Fixpoint flat_args_from (seen : list string) (ps : list (pat * T)) : ares :=
   match ps with
-  | [] => Some []
-  | (p, t) :: r => match flat_pat p with
-                   | FName s => match flat_arguments r with Some q => Some ((s, t) :: q) | None => None end
-                   | _ => None
-                   end
+  | [] => AOk []
+  | (p, t) :: r =>
+      match flat_pat p with
+      | FName s =>
+          if smem s seen then AConflict s
+          else if negb (is_ident p) && smem s reserved_flat then AConflict s
+          else match flat_args_from (s :: seen) r with AOk q => AOk ((s, t) :: q) | e => e end
+      | _ => AAbort
+      end
   end.
+Definition flat_arguments (ps : list (pat * T)) : ares := flat_args_from [] ps.
 
 Fixpoint clean_pats (ps : list (pat * T)) : option (list (pat * T)) :=
   match ps with
@@ -93,10 +110,14 @@ Fixpoint clean_pats (ps : list (pat * T)) : option (list (pat * T)) :=
   end.
 
 (* if_args_and_clean_pats followed by get_live_args_and_sig: the parameter list of the handle method,
-   of the message variant, of the arm pattern and of the user call.  None = the macro aborts *)
-Definition live_args (ps : list (pat * T)) : option (list (string * T)) :=
-  match clean_pats ps with Some ps' => flat_arguments ps' | None => None end.
+   of the message variant, of the arm pattern and of the user call *)
+Definition live_args (ps : list (pat * T)) : ares :=
+  match clean_pats ps with Some ps' => flat_arguments ps' | None => AAbort end.
+
+Definition res_names (r : ares) : option (list string) := match r with AOk qs => Some (map fst qs) | _ => None end.
+Definition res_class (r : ares) : nat := match r with AOk _ => 0 | AAbort => 1 | AConflict _ => 2 end.
 End Args.
+Arguments ares : clear implicits.
 
 (* ---- declarative side ---- *)
 Fixpoint join (ws : list string) : string :=
